@@ -105,8 +105,12 @@ def outcomeName : Mux.Outcome → String
   | .closed => "closed" | .protocol => "protocol" | .blocked => "pending" | .waiting => "pending" | .panic _ => "panic"
 
 def opMux (j : Json) : Json :=
-  match getObj j "cfg", getNat j "na", getNat j "nc", getNatList j "bytes", getBool j "eof" with
-  | some c, some na, some nc, some bytes, some eof =>
+  match getObj j "cfg", getNat j "na", getNat j "nc", (getNatList j "bytes").getD [], getBool j "eof" with
+  | some c, some na, some nc, bytes0, some eof =>
+    -- optional compact tail: `"pat":[..]` repeated `"times"` times after `"bytes"` (floods)
+    let pat := (getNatList j "pat").getD []
+    let times := (getNat j "times").getD 0
+    let bytes := bytes0 ++ (List.replicate times pat).flatten
     match getNat c "rfs", getNat c "rbs", getNat c "rfc" with
     | some rfs, some rbs, some rfc =>
       let (s, o) := Mux.run (Mux.fuelFor bytes) (Mux.St.init ⟨rfs, rbs, rfc⟩ na nc bytes eof)
